@@ -183,6 +183,22 @@ func CodecCatalogue() []*Request {
 		M("DiscSame", F("id", 1, "string"), F("kind", 2, "string", InOneof("c")), F("text", 3, "", Msg(q("cxoneofdisc", "Text")), InOneof("c"))).
 			WithOneofs(&Oneof{Name: "c", HasConfig: true, Discriminator: "kind"}),
 	}, "DiscSame"))
+	// value shapes found by the side condition variant_no_gap of C04_roundtrip_oneof_partial (proofs/OneofFacts.v): the
+	// variant is rendered / read by encoding/json reflection and loses data or cannot read its own output
+	add(featureReq("cxoneofgaps", nil, []*Message{
+		M("Opt", F("blob", 1, "bytes", Opt()), F("name", 2, "string")),
+		M("BoolMap", F("flags", 1, "string", MapOf("bool")), F("name", 2, "string")),
+		M("Floats", F("xs", 1, "double", Rep()), F("by_k", 2, "float", MapOf("string")), F("name", 3, "string")),
+		M("Fold", F("foo_bar", 1, "string"), F("foobar", 2, "string")),
+		M("FoldInt", F("alt_text", 1, "string"), F("alttext", 2, "int32")),
+		M("NestGaps", F("id", 1, "string"), F("fl", 2, "", Msg(q("cxoneofgaps", "Floats")), InOneof("c")), F("fo", 3, "", Msg(q("cxoneofgaps", "Fold")), InOneof("c")),
+			F("bm", 4, "", Msg(q("cxoneofgaps", "BoolMap")), InOneof("c")), F("opt", 5, "", Msg(q("cxoneofgaps", "Opt")), InOneof("c")),
+			F("fi", 6, "", Msg(q("cxoneofgaps", "FoldInt")), InOneof("c"))).
+			WithOneofs(&Oneof{Name: "c", HasConfig: true, Discriminator: "kind"}),
+		M("FlatGaps", F("id", 1, "string"), F("opt", 2, "", Msg(q("cxoneofgaps", "Opt")), InOneof("c")), F("bm", 3, "", Msg(q("cxoneofgaps", "BoolMap")), InOneof("c")),
+			F("fl", 4, "", Msg(q("cxoneofgaps", "Floats")), InOneof("c")), F("fo", 5, "", Msg(q("cxoneofgaps", "Fold")), InOneof("c"))).
+			WithOneofs(&Oneof{Name: "c", HasConfig: true, Discriminator: "kind", Flatten: true}),
+	}, "FlatGaps", "NestGaps"))
 	// root map whose values are wrappers of SCALAR / enum lists (combined form): nil inner lists, enums with a codec
 	{
 		st := &Enum{Name: "Tone", Values: []*EnumValue{{Name: "TONE_UNSPECIFIED", Number: 0}, {Name: "TONE_LOW", Number: 1, EnumValue: Str("low")}, {Name: "TONE_HIGH", Number: 2}}}
